@@ -338,7 +338,7 @@ func main() {
 
 	var ctl *pgConn
 	var err error
-	for i := 0; i < 50; i++ {
+	for i := 0; i < 300; i++ { // the server may need a while to come up on a busy machine
 		if ctl, err = dial(port); err == nil {
 			break
 		}
